@@ -105,7 +105,7 @@ def detect_scratch(wt, patch, ids, tier="quick"):
     sh(f"rm -rf {hdir} {vdir}; mkdir -p {vdir}; cp -r /verif/harness {hdir}; cp /verif/KNOWN_FINDINGS.txt {vdir}/; cp -r /verif/replays {vdir}/replays; rm -f {vdir}/replays/*/fail-*")
     ct = open(f"{hdir}/Cargo.toml").read().replace('path = "/repo"', f'path = "{wt}"')
     open(f"{hdir}/Cargo.toml", "w").write(ct)
-    cfg = open(f"{hdir}/.cargo/config.toml").read().replace('/verif/target/harness', '/tmp/mh-target')
+    cfg = open(f"{hdir}/.cargo/config.toml").read().replace('../target/harness', '/tmp/mh-target')
     open(f"{hdir}/.cargo/config.toml", "w").write(cfg)
     sh("git checkout -- . ; rm -rf tests", cwd=wt)
     rc, out = sh(f"git apply {patch}", cwd=wt)
